@@ -844,11 +844,21 @@ func (c *Ctx) errorsGate(instance string, f *Func, what string, effect func(Poin
 		name := calleeName(f.Info(), s.real())
 		ord[name]++
 		inst := fmt.Sprintf("%s: %s #%d", instance, name, ord[name])
-		nilE, _, _, _ := OutcomeEdges(s)
+		nilE, _, errObj, _ := OutcomeEdges(s)
 		again := atSite(s)
 		if pt, _ := g.Reach(s.After(), Cut{}, effect); pt == nil {
 			continue // the effect does not follow this call at all
 		}
+		// io.EOF is the designed end of a stream, not a failure of the step
+		nilE = unionEdges(nilE, g.EdgesImplying(func(a Atom) bool {
+			be, ok := ast.Unparen(a.E).(*ast.BinaryExpr)
+			if !ok || be.Op != token.EQL || !a.Val {
+				return false
+			}
+			isEOF := func(e ast.Expr) bool { return isPkgVar(f.Info(), e, "io", "EOF") }
+			isErr := func(e ast.Expr) bool { return objOf(f.Info(), e) == errObj }
+			return (isErr(be.X) && isEOF(be.Y)) || (isErr(be.Y) && isEOF(be.X))
+		}))
 		pt, path := g.Reach(s.After(), Cut{Edges: nilE, Stop: func(p Point, nd ast.Node) bool { return again(p, nd) }}, effect)
 		if pt == nil {
 			n++
